@@ -5,10 +5,11 @@
 -/
 import Driver.C01
 import Driver.Hist
+import Driver.C18
 open MongoModel.Wire
 
 def handlers : List (List String → Option (List String)) :=
-  [Driver.handleC01, Driver.handleHist]
+  [Driver.handleC01, Driver.handleHist, Driver.handleC18]
 
 def handle (ts : List String) : List String :=
   match handlers.findSome? (· ts) with
